@@ -7,6 +7,7 @@ import (
 	"encoding/json"
 	"fmt"
 	"os"
+	"runtime/debug"
 	"strconv"
 
 	"github.com/tidwall/geojson"
@@ -79,6 +80,11 @@ func c05Worker(args []string) {
 	n, _ := strconv.Atoi(args[1])
 	o := &wout{w: bufio.NewWriterSize(os.Stdout, 1<<16), slow: os.Getenv("VERIF_SLOW") != ""}
 	thorough := os.Getenv("VERIF_TIER") == "thorough"
+	// no call on any input of this check needs more than a fraction of this
+	// (nesting is at most a few thousand levels); a call whose stack grows with
+	// the length of a flat run of bytes runs into it (fatal: the worker dies,
+	// which is reported) long before the default limit of 1 GB
+	debug.SetMaxStack(256 << 20)
 	c05Objects(o, shard, n, thorough)
 	c05Parse(o, shard, n, thorough)
 	fmt.Fprintf(o.w, "E %d %d %d %d %d\n", o.evals, o.states, o.trans, o.nt, verifrt.MaxUsed)
@@ -169,10 +175,14 @@ var c05OptSets = []optSet{optDefault, optAlt,
 	{optName(mkOpts(64, 64, geometry.QuadTree, true, false, false, false)), mkOpts(64, 64, geometry.QuadTree, true, false, false, false)},
 	{optName(mkOpts(0, 0, geometry.None, false, false, true, false)), mkOpts(0, 0, geometry.None, false, false, true, false)}}
 
-func c05ParseOne(o *wout, text string) {
+func c05ParseOne(o *wout, text string) { c05ParseNamed(o, text, text) }
+
+// c05ParseNamed: name stands for the text in reported cases (documents of
+// many megabytes are regenerated from their name on replay).
+func c05ParseNamed(o *wout, name, text string) {
 	for _, os := range c05OptSets {
 		o.evals++
-		mk := func() rt.Case { return rt.Case{Kind: "parsecall", Doc: text, Cfg: os.Name} }
+		mk := func() rt.Case { return rt.Case{Kind: "parsecall", Doc: name, Cfg: os.Name} }
 		o.begin(mk)
 		var obj geojson.Object
 		var err error
@@ -316,6 +326,19 @@ func c05Parse(o *wout, shard, n int, thorough bool) {
 			c05ParseOne(o, nestDoc(fam, d))
 			o.states++
 		}
+	}
+	// runs of 24 Mi bytes of one kind (white space in every place the grammar
+	// allows it, string bodies, digits, zeros, array elements): the work and
+	// the stack a call needs must not grow with the length of a run (the
+	// worker's stack limit is 256 MB, see c05Worker)
+	for i, lr := range c05LongRuns() {
+		if i%n != shard {
+			continue
+		}
+		o.beat()
+		o.states++
+		o.nt++
+		c05ParseNamed(o, "longrun#"+lr.name, lr.gen())
 	}
 	// mixed nesting: every wrapper sequence of length <= 3 over {GeometryCollection,
 	// Feature, Feature in the Circle convention, Feature with properties,
